@@ -191,3 +191,64 @@ func ZZ_SELF_SymIndex() {
 	zzvf.Observe("str", string(b))
 	zzvf.Reach("symindex")
 }
+
+type zzN struct {
+	key  int
+	next *zzN
+}
+
+// parallel phi evaluation (swap in a loop header), list surgery with a trailing pointer
+//vf: witnesses=6
+func ZZ_SELF_Phi() {
+	a, b := zzvf.Int32(), zzvf.Int32()
+	for i := 0; i < 5; i++ {
+		a, b = b, a+b
+	}
+	zzvf.Observe("fib", a)
+	n0 := &zzN{key: 0}
+	n3 := &zzN{key: 3, next: n0}
+	head := n3
+	key := int(zzvf.Uint8() % 4)
+	var prev *zzN
+	for e := head; e != nil; e = e.next {
+		if e.key == key {
+			if prev != nil {
+				prev.next = e.next
+			} else {
+				head = e.next
+			}
+			break
+		}
+		prev = e
+	}
+	cnt := 0
+	for e := head; e != nil; e = e.next {
+		cnt = cnt*10 + e.key + 1
+	}
+	zzvf.Observe("list", cnt)
+	zzvf.Reach("phi")
+}
+
+// ranged variables, affine div/rem folding, decimal formatting models
+//vf: witnesses=8
+func ZZ_SELF_Ranges() {
+	v := zzvf.IntRange(0, 23)
+	t := int64(946684800000) + int64(v)*3600000 + 59*60000 + 7
+	d := (t - 946684800000) % 86400000
+	zzvf.Observe("hh", d/3600000)
+	zzvf.Observe("mm", d%3600000/60000)
+	zzvf.Observe("q", (int64(v)*7+3)/7)
+	zzvf.Observe("r", (int64(v)*7+3)%7)
+	zzvf.Observe("bucket", (int64(v)+100)/1000)
+	zzvf.Observe("f2", fmt.Sprintf("%02d:%03d|%d", v, v, v))
+	w := zzvf.IntRange(5, 1234)
+	zzvf.Observe("itoa", strconv.Itoa(w))
+	zzvf.Observe("neg", strconv.Itoa(-w))
+	zzvf.Observe("fmtneg", fmt.Sprintf("%d", int32(-w)))
+	x, err := strconv.Atoi(strconv.Itoa(w))
+	zzvf.Observe("atoi", x)
+	zzvf.Observe("atoierr", err == nil)
+	zzvf.Observe("cmp", w < 5)
+	zzvf.Observe("cmp2", w <= 1234)
+	zzvf.Reach("ranges")
+}
